@@ -89,6 +89,9 @@ def _tree(draw):
             meta[pre + ".cap/" + os.path.basename(kids[0])] = "Name=Capped\nNumb=2\n"
         elif what == "dirabstract" and d:
             meta[pre + ".abstract"] = "about this directory\n"
+        if draw(st.integers(0, 5)) == 0 and not any(k.startswith(pre + ".cap/") for k in meta):
+            # '.cap' as a plain file (not the directory of per-file overrides)
+            meta[pre + ".cap"] = "not a directory\n"
     meta = {k: v for k, v in meta.items() if k not in files and k not in dirs}
     # symlinks
     links = {}
@@ -97,13 +100,17 @@ def _tree(draw):
         parent = draw(st.sampled_from(dirs))
         name = "ln%d" % i
         p = (parent + "/" + name) if parent else name
-        style = draw(st.sampled_from(["rel", "abs", "chain", "dangling", "cyclic", "climb", "rel", "climbhit"]))
+        style = draw(st.sampled_from(["rel", "abs", "chain", "dangling", "cyclic", "climb", "rel", "climbhit", "throughfile"]))
         if style in ("rel", "abs") and targets:
             t = draw(st.sampled_from(targets))
             links[p] = (os.path.relpath(t, parent or ".") if style == "rel" else "/" + t, style)
         elif style == "chain" and links:
             t = draw(st.sampled_from(sorted(links)))
             links[p] = (os.path.relpath(t, parent or "."), style)
+        elif style == "throughfile" and fl:
+            # dangling: the path continues below a regular file
+            t = draw(st.sampled_from(fl))
+            links[p] = (os.path.relpath(t, parent or ".") + "/" + draw(st.sampled_from(["x", "y"])), "dangling")
         elif style == "dangling":
             links[p] = ("no-such-target", style)
         elif style == "cyclic":
@@ -218,6 +225,9 @@ def _check_twin(case, ctx):
         sels = [""] + _zip_dirs(tree) + sorted(tree["files"]) + sorted(tree["links"]) + \
             sorted(m for m, c in tree["meta"].items() if "@PREFIX@" not in c)
         sels += [s + "/nope" for s in ([""] + tree["dirs"])[:2]] + [s + "/x" for s in sorted(tree["links"])[:2]]
+        # selectors that continue below a regular member, with and without virtual arguments
+        for f in sorted(tree["files"])[:2]:
+            sels += [f + "/x", f + "/x|foo", f + "/y?z", f + "|/MBOX-MESSAGE/1"]
         nt = bool(tree["links"]) or bool(tree["meta"]) or any(not p.isascii() for p in tree["files"]) or \
             any(d.count("/") >= 1 for d in tree["dirs"])
         if nt:
